@@ -12,6 +12,7 @@ package policy
 //vx:redirect (*github.com/openbao/openbao/v2/internal/vault/policy.ControlGroup).Clone vxPCGClone
 //vx:redirect github.com/openbao/openbao/v2/internal/vault/policy.addGrantingPoliciesToMap vxPGranting
 //vx:redirect github.com/mitchellh/copystructure.Copy vxPDeepCopy
+//vx:redirect github.com/hashicorp/go-secure-stdlib/parseutil.SafeParseInt vxPParseInt
 //vx:unwind 400
 
 import (
@@ -22,6 +23,14 @@ import (
 )
 
 func vxPCGClone(cg *ControlGroup) (*ControlGroup, error) { return nil, nil }
+
+// the request's limit is an integer or a string that is not a number ("max")
+func vxPParseInt(in any) (int, error) {
+	if v, ok := in.(int); ok {
+		return v, nil
+	}
+	return 0, vxErr("not an integer")
+}
 func vxPGranting(m map[uint32][]logical.PolicyInfo, p *Policy, bm uint32) map[uint32][]logical.PolicyInfo {
 	return m
 }
@@ -192,5 +201,50 @@ func VxParameterRules() {
 		vxAssert("denied list of the policy object is untouched", len(p.DeniedParameters) == 1 && len(p.DeniedParameters["ttl"]) == 1 && p.DeniedParameters["ttl"][0] == owns[k])
 	case 6:
 		vxAssert("required list of the policy object is untouched", len(p.RequiredParameters) == 1)
+	}
+}
+
+// pagination limits: the lowest positive pagination_limit among the policies naming a path wins (0 = unlimited),
+// independent of policy order; a list request asking for more is denied, an absent / zero / "max" limit is clamped
+func VxPaginationLimit() {
+	ctx := namespace.RootContext(context.Background())
+	n := 1 + vxChoose("number of policies on the path", 3)
+	choices := []int{0, 3, 7}
+	var pols []*Policy
+	eff := 0
+	for i := 0; i < n; i++ {
+		l := choices[vxChoose("pagination_limit of policy(0,3,7)", 3)]
+		if l > 0 && (eff == 0 || l < eff) {
+			eff = l
+		}
+		pc := &PathRules{Path: "kv/a", Permissions: &ACLPermissions{CapabilitiesBitmap: ListCapabilityInt, PaginationLimit: l}}
+		pols = append(pols, &Policy{Name: []string{"p1", "p2", "p3"}[i], Type: TypeACL, Namespace: namespace.RootNamespace, Paths: []*PathRules{pc}})
+	}
+	acl, err := NewACL(ctx, pols)
+	vxAssert("acl builds", err == nil)
+	data := map[string]any{}
+	kind := vxChoose("request limit(absent,integer,max)", 3)
+	v := vxInt("requested limit")
+	vxAssume(v >= -2 && v <= 10)
+	switch kind {
+	case 1:
+		data["limit"] = v
+	case 2:
+		data["limit"] = "max"
+	}
+	req := &logical.Request{Operation: logical.ListOperation, Path: "kv/a", Data: data}
+	got := acl.AllowOperation(ctx, req, false).Allowed
+	want := true
+	if eff > 0 && kind == 1 && (v > eff || v < 0) {
+		want = false
+	}
+	if got {
+		vxReach("pagination: allowed")
+	} else {
+		vxReach("pagination: denied")
+	}
+	vxAssert("a list is allowed iff its limit does not exceed the lowest positive pagination_limit of the policies (any merge order)", got == want)
+	if got && eff > 0 && (kind != 1 || v == 0) {
+		vxAssert("an absent, zero or 'max' limit is clamped to the effective pagination limit", req.Data["limit"] == []string{"0", "1", "2", "3", "4", "5", "6", "7"}[eff])
 	}
 }
